@@ -339,7 +339,7 @@ func swapScenario(rng *rand.Rand) *scenario {
 // suffix; the base file is lost and must be restored while its siblings stay what they are.
 func siblingScenario(rng *rand.Rand) *scenario {
 	sc := &scenario{prot: map[string][]byte{}, s: 8, r: 6, g: 2, volLoss: "none"}
-	sc.names = []string{"report.doc", "report.doc.tmp", "report.doc~", "report.doc.bak", "sub/x", "sub/x.tmp"}
+	sc.names = []string{"report.doc", "report.doc.tmp", "REPORT.DOC", "report.doc.bak", "sub/x", "sub/x.tmp", "Sub/X"} // also names that differ only in case
 	for i, n := range sc.names {
 		d := make([]byte, 9+3*i)
 		rng.Read(d)
